@@ -10,6 +10,13 @@ Theorem C17_discipline_holds : check_table lock_table = true.
 Proof. exact discipline_ok. Qed.
 Print Assumptions C17_discipline_holds.
 
+(* the registered format drivers and the sniffer are values shared by every reader and writer: none of
+   their methods assigns to a field of the receiver, increments one or hands out its address, so
+   concurrent calls on one driver share only fields that are never written after construction *)
+Theorem C17_shared_drivers_are_not_written : receiver_writes = [].
+Proof. exact drivers_stateless_ok. Qed.
+Print Assumptions C17_shared_drivers_are_not_written.
+
 (* what the discipline means for any two calls, in any number of goroutines *)
 Theorem C17_discipline_meaning : forall t,
   check_table t = true ->
